@@ -374,10 +374,12 @@ def evaluate(defn, part, rec, verbose=False):
                     print("rewritten", vd, "->", gv)
 
     # ---- 3. each chosen value of a combination is rendered exactly once
-    strings = [check_options(defn, dict(combo), "reference", part, rec) for combo in exp]
+    # (the combinations the code returned when they are the right ones, else the reference ones: the rendering is
+    # judged on its own even where the expansion fails)
     if set_ok:
-        for combo in got:
-            check_options(defn, combo, "returned", part, rec)
+        strings = [check_options(defn, combo, "returned", part, rec) for combo in got]
+    else:
+        strings = [check_options(defn, dict(combo), "reference", part, rec) for combo in exp]
     if verbose:
         print("option strings     :", strings[:8])
     return observed, strings
@@ -501,7 +503,8 @@ def run(ctx):
         "first. For each definition: parameters_configuration(regularize_parameters(d)) must be a duplicate-free list whose set "
         "equals the reference cartesian product (values compared through str()); the list must be identical on repeated calls and "
         "for every rewriting of the same definition (all top-level key orders, all sub-key orders, all orders of each value list "
-        "one at a time, everything reversed); build_option_for_parameters of every reference and every returned combination must "
+        "one at a time, everything reversed); build_option_for_parameters of every returned combination (of every reference "
+        "combination where the expansion failed) must "
         "render exactly the multiset of '--name value' / '--name sub:value' pairs of the chosen values. In addition every "
         f"definition with 0..{xmax} parameters is expanded in child interpreters with PYTHONHASHSEED {list(CHILD_SEEDS)} and must give "
         "the same list there. Non-trivial = at least two parameters (sub-parameters count) offer two or more values (for the "
